@@ -204,8 +204,10 @@ class Project(object):
             parts = self._norm_cache[key]
         except KeyError:
             parts = []
+            # the directories modules are imported from are no packages themselves, whatever they contain
+            tops = set(os.path.abspath(p or '.') for p in self.get_path())
             while True:
-                if os.path.exists(os.path.join(root, '__init__.py')):
+                if os.path.abspath(root) not in tops and os.path.exists(os.path.join(root, '__init__.py')):
                     parts.insert(0, os.path.basename(root))
                     root = os.path.dirname(root)
                 else:
